@@ -77,6 +77,8 @@ type vcPeer struct {
 	fail    bool
 	starts  int
 	closes  int
+	keep    bool          // keep the bundles handed to Send as they are (not serialised)
+	kept    []bpv7.Bundle
 	gate    chan struct{} // if set, Send waits for it (forced schedules)
 	arrived chan string
 }
@@ -103,6 +105,13 @@ func (p *vcPeer) GetPeerEndpointID() bpv7.EndpointID  { return p.eid }
 func (p *vcPeer) String() string                      { return "mock://" + p.name }
 
 func (p *vcPeer) Send(b bpv7.Bundle) error {
+	p.mu.Lock()
+	if p.keep {
+		p.kept = append(p.kept, b)
+		p.mu.Unlock()
+		return nil
+	}
+	p.mu.Unlock()
 	// serialise inside Send, as real convergence layers do: forward() mutates the shared bundle afterwards
 	var buf bytes.Buffer
 	err := b.WriteBundle(&buf)
